@@ -85,6 +85,8 @@ def _binop(op, l, r):
     if isinstance(op, ast.Mult):
         return l * r
     if isinstance(op, ast.Div):
+        if isinstance(r, sp.MatrixBase) and not isinstance(l, sp.MatrixBase):
+            return r.applyfunc(lambda x: l / x)     # numpy: element-wise
         return l / r
     if isinstance(op, ast.Pow):
         return l ** r
@@ -328,6 +330,8 @@ class Sym:
             base = self.expr(n.value, env, func, depth)
             if n.attr == "T":
                 return base.T if isinstance(base, sp.MatrixBase) else base
+            if n.attr == "shape" and isinstance(base, sp.MatrixBase):
+                return (sp.Integer(base.rows), sp.Integer(base.cols))
             if n.attr in ("real",):
                 return base
             raise Unsupported("attribute %s" % norm(n))
